@@ -116,3 +116,38 @@ Theorem C09_transaction_options_in_source_pick :
   cmd_matches_in "pick_picks" cmd_pick exp_pick = true.
 Proof. vm_compute. reflexivity. Qed.
 Print Assumptions C09_transaction_options_in_source_pick.
+
+(* ------------------------------------------------------------------------------------------
+   "... in a well-defined, UNDOABLE state", for every command: whichever modelled stg command
+   (other than undo / redo) stops with status 3 - a push, pop, float, sink, goto, delete,
+   commit, squash, pick, refresh or rebase that conflicts or whose check-out is refused - and
+   has recorded one entry on top of the old log, `stg undo --hard` gives back the stack the
+   command found (the three lists, every patch's commit, the head, the branch), with no
+   unmerged entry left and the work tree of the branch head.  Proofs in Proofs/UndoHaltProofs.v
+   (+ UndoHaltOpts.v) on top of Proofs/UndoStepProofs.v; spec in Model/UndoSpec.v.
+   ------------------------------------------------------------------------------------------ *)
+From StgV Require Import Model.UndoSpec Proofs.UndoHaltProofs.
+
+Theorem C09_undo_hard_undoes_halted_step :
+  forall lower_s, LowerOK lower_s ->
+  forall w c w1 so0 st0 so1 st1 w2,
+    Inv6 w -> prev_decreasing (w_objs w) ->
+    in_scope c = true -> logs_plain_op c = true ->
+    w_stack w = Some so0 -> state_of (w_objs w) so0 = Some st0 ->
+    step lower_s w c = (w1, X3) ->
+    w_stack w1 = Some so1 -> state_of (w_objs w1) so1 = Some st1 ->
+    s_prev st1 = Some so0 ->
+    run_undo w1 1 true = (w2, X0) ->
+    at_state w2 st0 /\ w_unmerged w2 = false /\ w_wt w2 = tree_of (w_objs w2) (w_branch w2).
+Proof. exact undo_hard_undoes_halted_step. Qed.
+Print Assumptions C09_undo_hard_undoes_halted_step.
+
+(* the premises are satisfiable: a push that really conflicts (unmerged entries), undone *)
+Theorem C09_undo_halt_nonvacuous :
+  exists w c w1 so0 st0 so1 st1 w2,
+    w_stack w = Some so0 /\ state_of (w_objs w) so0 = Some st0 /\ logs_plain_op c = true
+    /\ step (fun s => s) w c = (w1, X3) /\ w_unmerged w1 = true
+    /\ w_stack w1 = Some so1 /\ state_of (w_objs w1) so1 = Some st1 /\ s_prev st1 = Some so0
+    /\ run_undo w1 1 true = (w2, X0).
+Proof. exact undo_halt_nonvacuous. Qed.
+Print Assumptions C09_undo_halt_nonvacuous.
